@@ -126,53 +126,23 @@ def check_hash_data(P, ctx):
 
 
 def check_container_hash(P, ctx):
+    """the container hash combines the hash of every element (for maps: every key and every value) exactly once with xor, so it does not
+    depend on slot order, capacity or history: evaluated on small instances (absmodel) with element hashes that are distinct bits"""
+    from . import absmodel
     rule = 'C10.container-hash'
     for T, elems in (('Array', 1), ('List', 1), ('Tuple', 1), ('Table', 2), ('Tree', 2)):
         fn = P.fn(P.slot(T, 'Hash', 'hash'))
-        g = P.cfg(fn)
         ctx.fn(fn)
-        N = util.Norm(P, fn, inline=False)
-        rets = [n for n in g.live() if n['kind'] == 'ret']
-        rv = ir.canon(rets[0]['expr']) if len(rets) == 1 else None
-        hv = [n for n in g.live() if n.get('decl') and rv == ('local', n['decl']['name']) and util.const_int(n['decl']['init']) == 0]
-        ok = len(hv) == 1 and len(rets) == 1
-        detail = []
-        if ok:
-            h = ('local', hv[0]['decl']['name'])
-            ups = []
-            for n in g.live():
-                if n['expr'] is None or n.get('decl'):
-                    continue
-                e = N.canon(n['expr'])
-                if e[0] == 'assign' and e[2] == h:
-                    ups.append((n, e))
-            ok = len(ups) == 1
-            if ok:
-                n, e = ups[0]
-                # h ^= hash(x)   or   h = h ^ hash(k) ^ hash(v)
-                terms = []
-
-                def flat(x):
-                    if x[0] == 'bin' and x[1] == '^':
-                        flat(x[2]); flat(x[3])
-                    else:
-                        terms.append(x)
-                if e[1] == '^=':
-                    flat(e[3]); terms.append(h)
-                elif e[1] == '=':
-                    flat(e[3])
-                else:
-                    ok = False
-                hs = [t for t in terms if t[0] == 'call' and ir.callee_name(t) == 'hash']
-                ok = ok and terms.count(h) == 1 and len(hs) == elems and len(terms) == elems + 1
-                detail.append('update: %s' % ir.fmt(e))
-                # traversal: the update runs once per element of a full traversal
-                cov = traversal_full(P, fn, g, N, T, n)
-                if cov is not True:
-                    ok = False
-                    detail.append(cov)
-        ctx.check(ok, rule, T, site(fn), 'the container hash starts at 0 and XORs (order-independent) the hash of every element%s exactly once over a full traversal — '
-                  'so containers that compare equal element-wise hash equally whatever their history' % (' key and value' if elems == 2 else ''), detail)
+        try:
+            bad, unsup, ncase = absmodel.eval_visits(P, T, fn['name'], 'hash')
+        except absmodel.Unsupported as x:
+            bad, unsup, ncase = None, str(x), 0
+        ctx.stats['paths'] += ncase
+        if unsup and not bad:
+            ctx.undecided(rule, T, site(fn), 'the hash leaves the evaluated fragment: ' + unsup)
+        else:
+            ctx.check(bad is None, rule, T, site(fn), 'the container hash starts at 0 and XORs (order-independent) the hash of every element%s exactly once over a full traversal — '
+                      'evaluated on %d small instances' % (' (key and value)' if elems == 2 else '', ncase), [bad] if bad else None)
     ctx.floor(rule, 5)
 
 
